@@ -441,6 +441,9 @@ func (mr MeshReader) Read(reader io.Reader) (*modeling.Mesh, error) {
 
 		// Read data
 		scanner := bufio.NewScanner(reader)
+		// PLY puts no limit on the length of a body line (a face may carry long
+		// list properties); the scanner's default 64 KiB token would reject it.
+		scanner.Buffer(make([]byte, 0, bufio.MaxScanTokenSize), 1<<30)
 		for i := int64(0); i < vertexElement.Count; i++ {
 			if !scanner.Scan() {
 				return nil, fmt.Errorf("can't read %q element %w", mr.AttributeElement, io.ErrUnexpectedEOF)
